@@ -12,6 +12,7 @@ import (
 	"runtime/debug"
 	"strings"
 	"testing"
+	"time"
 
 	"github.com/crewjam/saml"
 	dsig "github.com/russellhaering/goxmldsig"
@@ -30,6 +31,14 @@ type SPConf struct {
 	Cert     bool   `json:"cert"`                // Certificate set => encryption key published
 	Signed   bool   `json:"signed,omitempty"`    // SignatureMethod set (requires Cert)
 	Binding  string `json:"binding"`             // redirect | post
+	// fields no clause mentions: varied, never judged by themselves
+	NameIDFormat  string `json:"nameid_format,omitempty"`   // AuthnNameIDFormat
+	ForceAuthn    int    `json:"force_authn,omitempty"`     // 0 unset, 1 true, 2 false
+	AuthnContext  bool   `json:"authn_context,omitempty"`   // RequestedAuthnContext set
+	LogoutBinding int    `json:"logout_bindings,omitempty"` // 0 none, 1 POST, 2 POST+Redirect
+	ValidHours    int    `json:"valid_hours,omitempty"`     // MetadataValidDuration
+	AllowInit     bool   `json:"allow_idp_initiated,omitempty"`
+	AcsQuery      bool   `json:"acs_query,omitempty"` // ACS URL carries a query string
 }
 
 // Case is one login: SP request -> IdP response -> SP parse.
@@ -38,6 +47,8 @@ type Case struct {
 	SP    SPConf         `json:"sp"`
 	Sess  idpkit.Sess    `json:"session"`
 	Relay string         `json:"relay,omitempty"`
+	// Sess2, when set, logs a second user in through the SAME IdentityProvider and ServiceProvider values.
+	Sess2 *idpkit.Sess `json:"session2,omitempty"`
 }
 
 func excluded(slug string) bool { return os.Getenv("VERIF_EXCLUDE_"+slug) == "1" }
@@ -88,7 +99,8 @@ func gen(t *rapid.T) Case {
 		Signer:        rapid.Bool().Draw(t, "signer"),
 		SigMethod:     rapid.SampledFrom(idpkit.RSAMethods).Draw(t, "sigmethod"),
 		Intermediates: rapid.SampledFrom([]int{0, 0, 1}).Draw(t, "intermediates"),
-	}
+	}.WithExtras(rapid.Bool().Draw(t, "logoutURL"), rapid.Bool().Draw(t, "loginURL"), rapid.SampledFrom([]int{0, 0, 1, 8760}).Draw(t, "validHours"),
+		rapid.IntRange(0, 2).Draw(t, "template") == 0, rapid.IntRange(0, 2).Draw(t, "maker") == 0)
 	if rapid.IntRange(0, 7).Draw(t, "idp-ecdsa") == 0 {
 		// an ECDSA IdP key can only be given as crypto.Signer
 		c.IDP.KeyName, c.IDP.Signer = "idpec", true
@@ -101,11 +113,22 @@ func gen(t *rapid.T) Case {
 		Binding:  rapid.SampledFrom([]string{"redirect", "post"}).Draw(t, "binding"),
 	}
 	c.SP.Signed = c.SP.Cert && rapid.Bool().Draw(t, "signed")
+	c.SP.NameIDFormat = rapid.SampledFrom([]string{"", "", string(saml.EmailAddressNameIDFormat), string(saml.PersistentNameIDFormat), string(saml.UnspecifiedNameIDFormat), string(saml.TransientNameIDFormat)}).Draw(t, "sp-nameid-format")
+	c.SP.ForceAuthn = rapid.SampledFrom([]int{0, 0, 1, 2}).Draw(t, "force-authn")
+	c.SP.AuthnContext = rapid.IntRange(0, 3).Draw(t, "authn-context") == 0
+	c.SP.LogoutBinding = rapid.IntRange(0, 2).Draw(t, "logout-bindings")
+	c.SP.ValidHours = rapid.SampledFrom([]int{0, 0, 1, 8760}).Draw(t, "sp-valid-hours")
+	c.SP.AllowInit = rapid.IntRange(0, 3).Draw(t, "allow-idp-initiated") == 0
+	c.SP.AcsQuery = rapid.IntRange(0, 3).Draw(t, "acs-query") == 0
 	if c.SP.Key == "spec" && excluded("ECENC") {
 		c.SP.Cert, c.SP.Signed = false, false
 	}
 	c.Relay = rapid.SampledFrom([]string{"", "rs1", "relay-xyz"}).Draw(t, "relay")
 	c.Sess = genSess(t)
+	if rapid.IntRange(0, 2).Draw(t, "second-login") == 0 {
+		s2 := genSess(t)
+		c.Sess2 = &s2
+	}
 	return c
 }
 
@@ -116,7 +139,28 @@ func (c Case) buildSP() *saml.ServiceProvider {
 	au, _ := url.Parse("https://sp.example.com/saml/acs")
 	su, _ := url.Parse("https://sp.example.com/saml/slo")
 	kp := fix.Get(c.SP.Key)
-	sp := &saml.ServiceProvider{EntityID: c.SP.EntityID, Key: kp.Key, MetadataURL: *mu, AcsURL: *au, SloURL: *su}
+	if c.SP.AcsQuery {
+		au, _ = url.Parse("https://sp.example.com/saml/acs?tenant=t1&x=a%20b")
+	}
+	sp := &saml.ServiceProvider{EntityID: c.SP.EntityID, Key: kp.Key, MetadataURL: *mu, AcsURL: *au, SloURL: *su,
+		AuthnNameIDFormat: saml.NameIDFormat(c.SP.NameIDFormat), AllowIDPInitiated: c.SP.AllowInit, MetadataValidDuration: time.Duration(c.SP.ValidHours) * time.Hour}
+	switch c.SP.ForceAuthn {
+	case 1:
+		b := true
+		sp.ForceAuthn = &b
+	case 2:
+		b := false
+		sp.ForceAuthn = &b
+	}
+	if c.SP.AuthnContext {
+		sp.RequestedAuthnContext = &saml.RequestedAuthnContext{Comparison: "exact", AuthnContextClassRef: "urn:oasis:names:tc:SAML:2.0:ac:classes:PasswordProtectedTransport"}
+	}
+	switch c.SP.LogoutBinding {
+	case 1:
+		sp.LogoutBindings = []string{saml.HTTPPostBinding}
+	case 2:
+		sp.LogoutBindings = []string{saml.HTTPPostBinding, saml.HTTPRedirectBinding}
+	}
 	if c.SP.Cert {
 		sp.Certificate = kp.Cert
 	}
@@ -191,6 +235,31 @@ func check(c Case) (res pbt.Result) {
 		return fail("SP metadata does not survive xml.Marshal/Unmarshal: %v\n%s", err, spXML)
 	}
 	reg.M[spMD.EntityID] = spMD
+
+	res = c.login(idp, sp, sessions, c.Sess, res)
+	if res.Err != "" || c.Sess2 == nil {
+		return res
+	}
+	// a second user through the same IdentityProvider and ServiceProvider values
+	res.Classes = append(res.Classes, "sequence:second-login")
+	idp.Logger.(*idpkit.Quiet).Lines = nil
+	r2 := c.login(idp, sp, sessions, *c.Sess2, pbt.Result{})
+	if r2.Err != "" {
+		res.Err = "second login on the same IdP and SP values: " + r2.Err
+		res.NonTrivial = true
+	}
+	return res
+}
+
+// login runs one SP -> IdP -> SP login for sess and compares what the SP returns with sess.
+func (c Case) login(idp *saml.IdentityProvider, sp *saml.ServiceProvider, sessions *idpkit.Sessions, sess idpkit.Sess, res pbt.Result) pbt.Result {
+	fail := func(f string, a ...any) pbt.Result {
+		res.Err = fmt.Sprintf(f, a...)
+		res.NonTrivial = true
+		return res
+	}
+	sessions.S = sess.Session(fix.Epoch.Add(-1e9))
+	var err error
 
 	// the SP starts the login
 	var httpReq *http.Request
@@ -293,14 +362,14 @@ func check(c Case) (res pbt.Result) {
 	if assertion.Subject == nil || assertion.Subject.NameID == nil {
 		return fail("returned assertion has no NameID")
 	}
-	if got := assertion.Subject.NameID.Value; got != c.Sess.NameID {
-		return fail("NameID %s came back as %s", q(c.Sess.NameID), q(got))
+	if got := assertion.Subject.NameID.Value; got != sess.NameID {
+		return fail("NameID %s came back as %s", q(sess.NameID), q(got))
 	}
-	if c.Sess.NameIDFormat != "" && assertion.Subject.NameID.Format != c.Sess.NameIDFormat {
-		return fail("NameID format %q came back as %q", c.Sess.NameIDFormat, assertion.Subject.NameID.Format)
+	if sess.NameIDFormat != "" && assertion.Subject.NameID.Format != sess.NameIDFormat {
+		return fail("NameID format %q came back as %q", sess.NameIDFormat, assertion.Subject.NameID.Format)
 	}
 	// identity: ordered (name, friendly name, values)
-	want := c.Sess.ExpectedAttributes()
+	want := sess.ExpectedAttributes()
 	var got []idpkit.WantAttr
 	for _, st := range assertion.AttributeStatements {
 		for _, a := range st.Attributes {
@@ -396,6 +465,7 @@ var prop = &pbt.Prop[Case]{
 	ID: "C07",
 	Rule: "cases: one login SP -> IdP -> SP per case: session strings from every XML-1.0 class (markup, quotes, CR/LF/TAB, edge white space, CDATA/comment look-alikes, non-BMP, empty) in NameID, user fields, groups, custom attribute names / friendly names / values " +
 		"x SP config (entity ID set/unset, RSA-2048 / ECDSA P-256 key, certificate published or not = encryption on/off, redirect / POST request binding, signed / unsigned requests) x IdP config (Key or crypto.Signer, default + each RSA method, ECDSA methods through a Signer, intermediates); " +
+		"configuration fields no clause mentions are varied on both sides (SP: AuthnNameIDFormat, ForceAuthn, RequestedAuthnContext, LogoutBindings, MetadataValidDuration, AllowIDPInitiated, ACS URL with a query; IdP: LogoutURL, LoginURL, ValidDuration, form template, explicit assertion maker), and a third of the cases log a second user in through the same IdentityProvider and ServiceProvider values; " +
 		"both sides are configured from xml.Unmarshal(xml.Marshal(peer.Metadata())); exhaustive: the configuration lattice with one session holding every character class in every position. " +
 		"non-trivial: at least one identity string outside plain ASCII. distinct: sha256 of the JSON case.",
 	Gen:   gen,
